@@ -10,6 +10,7 @@ import decimal
 import io
 import random
 
+from vf.core import hostile_history
 from vf.gen import instances, render
 from vf.oracles import modelwalk, ref_decl
 from vf.oracles import ref_types as R
@@ -90,6 +91,10 @@ class Lex:
         text = rng.choice([str(v), "+" + str(v), "0" + str(v), "000" + str(v)])
         if t.length is None and rng.random() < 0.2:
             v = -rng.randint(1, 10**6)
+            text = str(v)
+        elif t.length is None and rng.random() < 0.25:
+            # no declared limit: integers are exact at any size (2**53 + 1 is the first one a float cannot hold)
+            v = rng.choice([2**53 + 1, 2**63 - 1, 2**64 + 1, 10**22 + 1, rng.randint(10**16, 10**30) | 1]) * rng.choice([1, 1, -1])
             text = str(v)
         return text, v
 
@@ -295,6 +300,13 @@ def one_document(ctx, lex, name, cls, seedstr):
     ctx.count("documents")
     ctx.count("leaves_compared", nleaves)
     case = {"cls": name, "seedstr": seedstr, "doc": data.decode("utf_8")[-1500:]}
+    if ctx.replay_case is not None:
+        hostile_history.replay_history(ctx.replay_case["case"].get("broken_before"))
+    else:
+        if ctx.rng.random() < 0.06:
+            hostile_history.disturb(ctx.rng)  # a broken document right before (not judged)
+            ctx.count("after_broken_document")
+        case["broken_before"] = list(hostile_history.HISTORY[-40:])
     try:
         t = OFXTree()
         t.parse(io.BytesIO(data))
